@@ -2,70 +2,87 @@
 
 ENTRY = {'coq_dir': 'C13',
  'harness': 'c13',
- 'cases': {'quick': 3000, 'thorough': 40000},
+ 'cases': {'quick': 20000, 'thorough': 120000},
  'consts': ['REQUEST_TIMEOUT_SECS'],
  'nontrivial_min_trace': 40,
- 'rule': 'seeded random histories (3-50 stimuli quick, 5-120 thorough) over <=4 peers; 45% dialogue-shaped (the generator tracks a rough '
-         'estimate of connections, open commands, carriers and waiting inbound requests so that most stimuli hit), the rest in four random '
-         'styles. Stimuli: send_request / send_request_with_fallback with Dial/Reject (also to the local peer id and after the manager was '
-         'dropped), bursts of try_send_request against a command channel of capacity 1-3, cancel_request, send_response / '
-         'send_response_with_feedback / reject_request, ConnectionEstablished (also with a dead command channel, or one with room for only '
-         'k substream-open commands so that open_substream succeeds for the first k requests queued behind the dial and fails for the '
-         'others), ConnectionClosed, DialFailure, SubstreamOpened (negotiated with the main or a fallback name) / SubstreamOpenFailure in '
-         'any order, carriers that block, accept or fail writes, remote responses / EOF / reset / oversize frames, clock advances across '
-         'the request timeout, a response (or a cancel) and the timeout made ready at the same instant (the order the implementation chose '
-         'is observed and handed to the model), inbound substreams with and without a bound (several request frames on one substream, '
-         'several peers), payload lengths {0,1,2,7,max-1,max,max+1}. Every case is run on three fresh protocol objects: (A) the REAL '
-         'RequestResponseProtocol::run future polled by hand on a paused clock - its events are the ones printed and judged; (B) the '
-         'cfg-gated single-step copy of the loop, which supplies the sorted private bookkeeping after every stimulus '
-         '(peers/active/active_inbound, pending_dials, pending_outbound, cancel handles, the three future counts); (C) the real run with '
-         'an event channel of capacity 1, the loop parking inside handlers until the user drains; any difference between A and B or C is '
-         'marked in the trace. User-visible events, OpenSubstream commands, frames that reached the remote end and the dumps are compared '
-         'with the extracted Coq model after every stimulus; non-trivial = trace of >= 40 numbers; distinct = distinct (case, trace) pairs',
- 'trusted_base': ['the real event loop run() is driven directly (hand-polled future); the cfg-gated single-step copy VerifProtocol::step '
-                  'is used only for the bookkeeping dumps and is compared with the real loop on every stimulus',
-                  'environment of the model = the scripted harness: transport events arrive only through TransportService, the remote side '
-                  'answers a request only after the whole request frame arrived, TransportManagerHandle::dial succeeds exactly for peers '
-                  'with a known address while the manager lives (the manager itself is not run; its dial bookkeeping is C05/C06; '
-                  'ImmediateDialError::AlreadyConnected / ChannelClogged of the manager are not reachable in this harness), scripted '
-                  'connections read their command channel after the loop has come to rest',
-                  'tokio paused clock drives request timeouts; clock advances are chosen so that no deadline is hit exactly; when a '
-                  "response and a timeout are ready at once tokio's unbiased select! decides - the harness observes the outcome and reruns "
-                  'the twin objects until they made the same choice',
+ 'rule': 'seeded random histories (3-50 stimuli quick, 5-120 thorough) over <=4 peers; 45% dialogue-shaped (the generator tracks a rough estimate of '
+         'connections, open commands, carriers and waiting inbound requests so that most stimuli hit), the rest in five random styles (one with a '
+         'transport manager whose belief about the peers changes all the time). Stimuli: try_send_request / try_send_request_with_fallback and the '
+         'async send_request / send_request_with_fallback with Dial/Reject (also to the local peer id), bursts of try_send_request against a command '
+         'channel of capacity 1-3 optionally followed by an async send_request that has to wait (and either gets through or is dropped while '
+         'waiting), cancel_request, send_response / send_response_with_feedback / reject_request (for a pending request or for an arbitrary request '
+         'id), the environment of dial(): the manager is made to believe the peer unknown / disconnected with an address / connected / dialing / '
+         'disconnected with an empty address store / disconnected with a dial record / opening (usually the truth after ConnectionEstablished and '
+         'ConnectionClosed, often lagging behind or running ahead), its command channel is filled up or closed - so that dial() returns Ok (with and '
+         'without a DialPeer command), TriedToDialSelf, AlreadyConnected, NoAddressAvailable, TaskClosed and ChannelClogged; ConnectionEstablished '
+         '(also with a dead command channel, or one with room for only k substream-open commands), ConnectionClosed, DialFailure, SubstreamOpened '
+         '(main or fallback name) / SubstreamOpenFailure (three error kinds) in any order, carriers that block, accept or fail writes, remote '
+         'responses / EOF / reset / oversize frames, clock advances across the request timeout, a response (or a cancel) and the timeout made ready '
+         'at the same instant, inbound substreams with and without a bound, payload lengths {0,1,2,7,200,max-1,max,max+1} with max in '
+         '{16,300,1024,70000,2^20}, the user dropping the handle / the service channel closing (the loop ends). 80% of the histories end with the '
+         'environment discharging what it owes (DialFailure for every accepted unanswered dial, then either ConnectionClosed for every connection or '
+         'SubstreamOpenFailure for every unanswered open with the connections staying, then 2*timeout+1 ms pass), which makes the exactly-one clause '
+         'decidable for every request of the history. Every case is run on two fresh protocol objects, both as the REAL RequestResponseProtocol::run '
+         'future polled by hand on a paused clock: (A) default channel sizes - its events and the bookkeeping the loop itself publishes each time it '
+         'comes back to its select! (peers/active/active_inbound, pending_dials, pending_outbound, cancel handles, the three future counts) are '
+         'printed; (C) event channel of capacity 1, the loop parking inside handlers until the user drains - any difference to A is marked in the '
+         'trace. User-visible events, dial() calls with their results, OpenSubstream commands, frames that reached the remote end and the '
+         'bookkeeping are compared with the extracted Coq model after every stimulus; non-trivial = trace of >= 40 numbers; distinct = distinct '
+         '(case, trace) pairs',
+ 'trusted_base': ['the real event loop run() is driven directly (hand-polled future, noop waker, paused tokio clock); the bookkeeping is read '
+                  'through a cfg(verif) probe at the top of the loop (thread-local copy of the private maps); no copy of the loop is involved any '
+                  'more',
+                  'environment of the model = the scripted harness: transport events arrive only through the real TransportService, which is '
+                  'attached to the handle of a real TransportManager that is never run - the harness overwrites its peer table and fills/closes its '
+                  'command channel, so dial() is the real TransportManagerHandle::dial on a scripted state (its result is logged by a cfg(verif) '
+                  'probe in TransportService::dial and compared with the model; ImmediateDialError::PeerIdMissing cannot come out of dial(peer) and '
+                  'is covered by the theorems only); the remote side answers a request only after the whole request frame arrived; scripted '
+                  'connections read their command channel after the loop has come to rest; connection handles stay Active (the keep-alive downgrade '
+                  "path of open_substream is C08's subject)",
+                  'tokio paused clock drives request timeouts; clock advances are chosen so that no deadline is hit exactly; when a response and a '
+                  "timeout are ready at once tokio's unbiased select! decides - the harness observes the outcome and reruns the twin object until it "
+                  'made the same choice',
                   "in-memory carrier under the crate's Substream type (Substream::verif_new); framing itself is C04's subject"],
- 'level_text': 'Proof: for every sequence of stimuli (user commands, transport-service events in any order, carrier events of the remote '
-               'side, clock advances) the model of the event loop emits at most one terminal event per request id (C13_at_most_one). '
-               'Exactly one: C13_exactly_one_contract states the premise as a transport contract - a ghost ledger computed from the '
-               'stimuli and from the calls the protocol makes (dial accepted, open_substream accepted, carrier handed to a request future) '
-               "records what the environment still owes (an answer to every dial, an answer to every open or the peer's ConnectionClosed, "
-               'for every carrier a terminal event of its request or the passing of the request timeout); once that is discharged every '
-               'accepted send_request has exactly one terminal event unless the user asked to cancel it (C13_exactly_one and '
-               'C13_exactly_one_settled give the same with premises on the final state; ledger invariants: an unanswered id waits in '
-               'pending_dials or is in peers[..].active, an active id has a pending_outbound entry or an in-flight future, and every such '
-               'entry is covered by the ghost ledger). Matching payload: a ResponseReceived(rid, bytes) is caused only by the remote side '
-               "answering exactly those bytes on a carrier that on_outbound_substream had handed to rid's future, carriers and request ids "
-               'are paired one-to-one (C13_payload), and the request frame that reached the remote end of that carrier is the request '
-               'given to send_request for rid or its fallback variant (C13_request_wire). A RequestReceived is caused only by a request '
-               'frame on an inbound carrier, carries its bytes, and no carrier yields two (C13_responder_once); the inbound bound is an '
-               'invariant for every interleaving of peers (C13_inbound_bound); send_response_with_feedback reports () only in a step in '
-               'which a response frame went out (C13_feedback); a bounded event channel with a parking producer loses, duplicates and '
-               'reorders nothing (C13_channel_nothing_lost); a dial refused at once yields its single RequestFailed and queues nothing '
-               '(C13_dial_refused_one_failure). The model is tied to mod.rs/handle.rs by a per-stimulus differential run of the real run() '
-               "loop with full bookkeeping dumps; the oracle prop_ok re-judges the clauses of the property text on the implementation's "
-               'traces.',
+ 'level_text': 'Proof: for every sequence of stimuli (user commands, transport-service events in any order, every result of dial(), carrier events '
+               'of the remote side, clock advances) the model of the event loop emits at most one terminal event per request id (C13_at_most_one). '
+               'Exactly one, without a premise on the final state: after ANY history, once the environment has discharged what it owes by its own '
+               'books (DialFailure for every dial it accepted and did not answer, ConnectionClosed for every connection, more than the timeout '
+               'passes) every accepted send_request has exactly one terminal event unless the user asked to cancel it (C13_exactly_one_flushed; '
+               'C13_flush_discharges, C13_opens_on_connections). The same with the premise as a transport contract - a ghost ledger computed from '
+               'the stimuli and the calls the protocol makes (dial accepted, open_substream accepted, carrier handed to a request future) records '
+               'what the environment still owes (C13_exactly_one_contract), or with premises on the final state (C13_exactly_one, '
+               'C13_exactly_one_settled). The result of dial() is a choice of the environment: whatever it is, a Dial request to a peer the protocol '
+               'does not know is EITHER parked behind an accepted dial OR failed at once with RequestFailed(DialFailed(Some(that error))) and parked '
+               'nowhere (C13_send_dial_step, C13_dial_refused_one_failure for every code that is not Ok; C13_dial_res_cases: the order of the checks '
+               'of TransportManagerHandle::dial). Matching payload: a ResponseReceived(rid, bytes) is caused only by the remote side answering '
+               "exactly those bytes on a carrier that on_outbound_substream had handed to rid's future, carriers and request ids are paired "
+               'one-to-one (C13_payload), and the request frame that reached the remote end of that carrier is the request given to send_request for '
+               'rid or its fallback variant (C13_request_wire). A RequestReceived is caused only by a request frame on an inbound carrier, carries '
+               'its bytes, and no carrier yields two (C13_responder_once); the inbound bound is an invariant for every interleaving of peers '
+               '(C13_inbound_bound); send_response_with_feedback reports () only in a step in which a response frame went out (C13_feedback); a '
+               'bounded event channel with a parking producer loses, duplicates and reorders nothing (C13_channel_nothing_lost). The model is tied '
+               'to mod.rs/handle.rs by a per-stimulus differential run of the real run() future with full bookkeeping dumps; the oracle prop_ok '
+               "re-judges the clauses of the property text on the implementation's traces: at most one, exactly one once the protocol's books are "
+               "empty AND once the environment's ledger (recomputed from the observed dial results, OpenSubstream commands and carrier hand-overs - "
+               'the executable face of C13_exactly_one_contract) is discharged, a refused dial fails its request in the same step with that very '
+               'error, every frame on the wire is the right request variant / the response the user supplied, responses byte-identical, one '
+               'RequestReceived per inbound substream, the inbound bound, nothing after the loop has ended.',
  'level_note': 'The unrepaired code violated the property (F-C13a: a second request to a peer that is still being dialed overwrote '
-               'pending_dials[peer]; the first request never got an outcome; C13_unrepaired_refuted) - repaired by a fix: commit, witness '
-               'kept in corpus/C13. Modelled since round 3: fallback protocol names, bursts against a bounded command channel (ids burned '
-               'by ChannelClogged), a bounded event channel (third run with capacity 1), dial() refused with TriedToDialSelf / TaskClosed '
-               '/ NoAddressAvailable, a response racing with the timeout or with a cancel, send_response after the peer disconnected. Not '
-               'modelled: partial frames (C04), dropping the RequestResponseHandle (the loop exits; nobody is left to observe), a DialPeer '
-               'command silently refused by the manager later on (F-C05c: then a dial stays owed forever and the contract premise never '
-               'holds). Timeouts are events that fire when the clock passes their deadline; the request timeout must be positive for '
-               'C13_exactly_one_contract (it is 5 s in the source).',
+               'pending_dials[peer]; the first request never got an outcome; C13_unrepaired_refuted) - repaired by a fix: commit, witness kept in '
+               'corpus/C13. Modelled since round 4: every result of dial() as an environment choice (the manager lagging behind ConnectionClosed, a '
+               'peer that on_connection_established did not register because no substream could be opened, a dial already in progress, clogged / '
+               'closed command channel), failure codes naming the ImmediateDialError variant, three kinds of SubstreamOpenFailure errors, async '
+               'send_request (waiting, dropped while waiting), responses for arbitrary request ids, the loop ending (handle dropped, service channel '
+               'closed), payloads up to 1 MiB. Not modelled: partial frames (C04), what the remote side sees when the loop ends (carriers are '
+               'dropped), a DialPeer command silently refused by the manager later on (F-C05c: then a dial stays owed forever and the contract '
+               'premise never holds), the keep-alive downgrade of connection handles (C08). Neither the user stalling on a RequestReceived nor a '
+               'remote that opens a substream and never sends its request has a timeout in the code: the slot stays occupied (the bound is '
+               'respected; the model does the same). Timeouts are events that fire when the clock passes their deadline; the request timeout must be '
+               'positive for the exactly-one theorems (it is 5 s in the source).',
  'assumptions': ['request ids come from the shared allocator (send_request/try_send_request), never chosen by the user',
-                 'C13_exactly_one_contract: the environment discharges what it owes - every accepted dial is answered by '
-                 'ConnectionEstablished or DialFailure, every accepted open_substream by SubstreamOpened, SubstreamOpenFailure or the '
-                 "peer's ConnectionClosed, and every carrier handed to a request future sees a terminal event of its request or the "
-                 'request timeout (> 0) passes',
-                 'HashMap/FuturesUnordered iteration order is not observable (events of one step and dumps are sorted); the order in which '
-                 "tokio's select! looks at two simultaneously ready branches is an input of the model"]}
+                 'C13_exactly_one_flushed / C13_exactly_one_contract: the environment discharges what it owes - every accepted dial is answered by '
+                 "ConnectionEstablished or DialFailure, every accepted open_substream by SubstreamOpened, SubstreamOpenFailure or the peer's "
+                 'ConnectionClosed, and every carrier handed to a request future sees a terminal event of its request or the request timeout (> 0) '
+                 'passes',
+                 "HashMap/FuturesUnordered iteration order is not observable (events of one step and dumps are sorted); the order in which tokio's "
+                 'select! looks at two simultaneously ready branches is an input of the model']}
